@@ -30,7 +30,7 @@ fn row(row_num: usize, is_cad: bool, day: i64, amount: Decimal) -> FxtRow {
         currency: if is_cad { Currency::cad() } else { Currency::usd() },
         affiliate: aff(0),
         trade_date: date(day),
-        trade_date_and_time: String::new(),
+        trade_date_and_time: "t".to_string(),
         amount,
         account: acct(),
     }
@@ -40,7 +40,8 @@ fn signed(neg: bool, m: i64, scale: u32) -> Decimal {
 }
 
 fx_harness! {
-    #[kani::unwind(5)]
+    // mem::swap of an Option<FxtRow> is a loop over its 8-byte chunks
+    #[kani::unwind(40)]
     fn c18_fxt_pair() {
         // two adjacent FXT rows in either order, symbolic currencies, signs, amounts, days
         let a_cad = ks::any_bool(); let b_cad = ks::any_bool();
@@ -53,9 +54,11 @@ fx_harness! {
         // an unpaired FXT is an error, not a guess
         assert!(t.get_fx_txs().is_err());
         let r = t.add_fxt_row(row(2, b_cad, db, b));
+        let r_ok = r.is_ok();
+        core::mem::forget(r);
         let well_formed = (a_cad != b_cad) && da == db && (a_neg != b_neg);
-        match r {
-            Ok(()) => {
+        match r_ok {
+            true => {
                 vcover!("pair accepted");
                 assert!(well_formed);
                 let txs = t.get_fx_txs().ok().unwrap();
@@ -75,7 +78,7 @@ fx_harness! {
                 let c: crate::portfolio::CsvTx = x.clone().into();
                 assert!(crate::portfolio::Tx::try_from(c).is_ok());
             }
-            Err(_) => {
+            false => {
                 vcover!("pair rejected");
                 assert!(!well_formed);
                 // the failed pair is consumed: no stale leg is reused
@@ -92,14 +95,14 @@ fn btx(is_buy: bool, shares: i64, price: i64, comm: i64) -> BrokerTx {
         security: "S".to_string(),
         trade_date: date(10),
         settlement_date: date(12),
-        trade_date_and_time: String::new(),
-        settlement_date_and_time: String::new(),
+        trade_date_and_time: "t".to_string(),
+        settlement_date_and_time: "t".to_string(),
         action: if is_buy { TxAction::Buy } else { TxAction::Sell },
         amount_per_share: dec(price, 2),
         num_shares: dec(shares, 0),
         commission: dec(comm, 2),
         currency: Currency::usd(),
-        memo: String::new(),
+        memo: "m".to_string(),
         exchange_rate: None,
         affiliate: aff(0),
         row_num: 7,
@@ -110,7 +113,7 @@ fn btx(is_buy: bool, shares: i64, price: i64, comm: i64) -> BrokerTx {
 }
 
 fx_harness! {
-    #[kani::unwind(5)]
+    #[kani::unwind(8)]
     fn c18_implicit_fx_conserves_usd_cash() {
         // a USD buy and a USD sell: the USD.FX rows' signed share total equals
         // the net USD cash flow (sale proceeds - purchase cost - commissions)
